@@ -114,7 +114,8 @@ def o_copy_independent(seq: str, npos: int, glob: bool, nint: int, amb: bool, wh
 
 
 _PERT = ["none", "reorder", "value", "mult", "position", "interval_start", "interval_end", "interval_amb", "charge", "drop", "duplicate",
-         "residue", "nterm_value", "labile_drop", "static_value", "isotope_value", "adduct_value", "interval_mod"]
+         "residue", "nterm_value", "labile_drop", "static_value", "isotope_value", "adduct_value", "interval_mod", "interval_reorder",
+         "nterm_reorder", "interval_mod_mult"]
 
 
 def o_equality(seq: str, glob: bool, nint: int, pert: int, excl=()) -> bool:
@@ -144,10 +145,14 @@ def o_equality(seq: str, glob: bool, nint: int, pert: int, excl=()) -> bool:
         if L == 1 and p == "position":
             kw["internal_mods"] = {0: mods0[:1]}
         if nint:
+            ivm = [Mod("iv" if p != "interval_mod" else "ivX", 1), Mod("iw", 2 if p != "interval_mod_mult" else 3)]
+            if p == "interval_reorder":
+                ivm = ivm[::-1]
             kw["intervals"] = [Interval(0 + (1 if p == "interval_start" and L > 1 else 0), L - (1 if p == "interval_end" and L > 1 else 0),
-                                        p == "interval_amb", [Mod("iv" if p != "interval_mod" else "ivX", 1)])]
+                                        p == "interval_amb", ivm)]
         if glob:
-            kw.update(nterm_mods=[Mod("nt" if p != "nterm_value" else "ntX", 1)], cterm_mods=[Mod("ct", 2)],
+            ntm = [Mod("nt" if p != "nterm_value" else "ntX", 1), Mod("nu", 1)]
+            kw.update(nterm_mods=ntm[::-1] if p == "nterm_reorder" else ntm, cterm_mods=[Mod("ct", 2)],
                       labile_mods=[Mod("lab", 1)] if p != "labile_drop" else None,
                       static_mods=[Mod("[st]@" + seq[0] if p != "static_value" else "[stX]@" + seq[0], 1)],
                       isotope_mods=[Mod("13C" if p != "isotope_value" else "15N", 1)], unknown_mods=[Mod("unk", 1)],
@@ -159,17 +164,17 @@ def o_equality(seq: str, glob: bool, nint: int, pert: int, excl=()) -> bool:
     b = make(kind)
     # perturbations that need a feature which is absent leave the annotation unchanged
     effective = kind
-    if kind in ("interval_start", "interval_end", "interval_amb", "interval_mod") and not nint:
+    if kind in ("interval_start", "interval_end", "interval_amb", "interval_mod", "interval_reorder", "interval_mod_mult") and not nint:
         effective = "none"
     if kind in ("interval_start", "interval_end") and L == 1:
         effective = "none"
-    if kind in ("charge", "nterm_value", "labile_drop", "static_value", "isotope_value", "adduct_value") and not glob:
+    if kind in ("charge", "nterm_value", "labile_drop", "static_value", "isotope_value", "adduct_value", "nterm_reorder") and not glob:
         effective = "none"
     if kind == "position" and L == 1:
         effective = "drop"
     if kind == "residue" and seq[0] == "W":
         effective = "none"
-    want_equal = effective in ("none", "reorder")
+    want_equal = effective in ("none", "reorder", "interval_reorder", "nterm_reorder")
     with NoTracing():
         refl = (a == a) and (b == b)
         ab = (a == b)
